@@ -228,7 +228,7 @@ fn case_json(case: &Case, args: &Args, i: u64) -> String {
 
 /// Parent: one child process per run
 pub fn run(args: &Args, rep: &mut Report) {
-    let n = args.get_u64("n", if args.tier_thorough { 3000 } else { 96 });
+    let n = args.get_u64("n", if args.tier_thorough { 2000 } else { 96 });
     let scratch = args.get("scratch").unwrap_or("/tmp").to_string();
     let exe = std::env::current_exe().expect("current_exe");
     let only: Option<u64> = args.case.as_ref().and_then(|c| c.parse().ok());
